@@ -287,7 +287,7 @@ def roundtrip_fresh(w, protocol, loader, caching, calls, wd, tag, query_first=Tr
         return {"err": "dump:" + type(exc).__name__}
     with open(job_path, "w") as f:
         json.dump({"data": data_path, "loader": loader, "caching": caching, "calls": calls, "query_first": query_first}, f)
-    p = subprocess.run([sys.executable, script, job_path, out_path], capture_output=True, text=True, timeout=120,
+    p = subprocess.run([sys.executable, script, job_path, out_path], capture_output=True, text=True, timeout=900,
                        env=dict(os.environ, PYTHONHASHSEED="0"))
     if not os.path.exists(out_path):
         return {"err": "fresh-interpreter-crashed", "trace": p.stderr[-600:]}
@@ -467,7 +467,7 @@ def main_super_case(wd):
     with open(script, "w") as f:
         f.write(MAIN_SUPER_SCRIPT)
     try:
-        p = subprocess.run([sys.executable, script], capture_output=True, text=True, timeout=60,
+        p = subprocess.run([sys.executable, script], capture_output=True, text=True, timeout=300,
                            env=dict(os.environ, PYTHONHASHSEED="0"))
         line = next((l for l in p.stdout.splitlines() if l.startswith("RESULT ")), "RESULT crashed")
     except subprocess.TimeoutExpired:
